@@ -446,7 +446,7 @@ class Battery(object):
                         "%s: child %d registered with %s is described as %r (expected it to name %r)" % (mode, i, r["method"], d, want),
                         {"method": r["method"]},
                     )
-                if isinstance(r["obj"], GCM):
+                if isinstance(r["obj"], GCM) or hasattr(r["obj"], "vs_expected_children"):
                     self.c09_context(W, ch, r["obj"], False, [], 0, mode + "/es_child")
 
     def exit_linked(self, nxt, mgr):
